@@ -259,3 +259,36 @@ func c06HistW(c *Ctx) {
 		}
 	})
 }
+
+// group "pickwait": the helper thread pick() starts for a client in Channel mode. When the helper was
+// abandoned (a packet was queued while it slept) it must not leave a re-key behind: the announcement
+// it would have produced is never sent, so a queued KeyPair would be swapped in by the next
+// successful write although the server never saw it.
+func c06PickWait(c *Ctx) {
+	c.Cases("pickwait", c.N(24, 120), func(r *Rng, i int) {
+		d := c2.VerifC06NewDirect()
+		if e1, e2 := d.Hello(r.Bytes(r.Intn(20))); e1 != nil || e2 != nil {
+			return
+		}
+		d.Arm(nil, nil)
+		abandoned, rekey := i%2 == 0, i%4 < 2 || r.Bool()
+		before := c2.VerifC06Keys(d.C)
+		pending, queued := d.PickWait(abandoned, rekey)
+		in := map[string]interface{}{"abandoned": abandoned, "rekey_rolled": rekey, "keypair_queued": pending, "packets_queued": queued}
+		switch {
+		case abandoned && (pending || queued != 0):
+			c.Fail("revert", "pickwait:abandoned-helper-left-rekey", fmt.Sprintf("the abandoned helper left keypair_queued=%v packets_queued=%d", pending, queued), in)
+		case !abandoned && queued != 1:
+			c.Fail("revert", "pickwait:no-packet", fmt.Sprintf("the helper queued %d packets, expected one (re-key or keep-alive)", queued), in)
+		case !abandoned && pending != rekey:
+			c.Fail("revert", "pickwait:rekey-roll", fmt.Sprintf("re-key rolled=%v but keypair queued=%v", rekey, pending), in)
+		}
+		if after := c2.VerifC06Keys(d.C); after.Shared() != before.Shared() {
+			c.Fail("desync", "pickwait:key-changed", "the helper changed the key in use", in)
+		}
+		d.DrainSend()
+		c.Count(fmt.Sprintf("pickwait:abandoned=%v,rekey=%v", abandoned, rekey))
+		c.Eval(true, fmt.Sprint("pickwait", i, in))
+	})
+}
+
